@@ -107,21 +107,29 @@ def regRun (reread publishFirst : Bool) (r : Reg) (steps : List RegStep) : Reg :
 /-! ### Start-up: nothing is served before the caches are synced -/
 
 /-- An instance that is starting.  The cluster state is static here (`full` objects; changes after
-    start-up are C01's subject); `caches` of them have reached the registries / config store so far. -/
+    start-up are C01's subject); `caches` of them have reached the registries / config store so far.
+    Every object that reaches a cache calls `ConfigUpdate` (`InboundUpdates` = `caches`; limit of the model:
+    an object that reaches a cache WITHOUT a `ConfigUpdate` cannot be expressed). -/
 structure Boot where
-  full    : Nat
-  caches  : Nat := 0
-  pending : Bool := false        -- an update was received (`InboundUpdates`) and not yet committed to a push context
-  ctx     : Option Nat := none   -- the global push context: `none` = `NewPushContext()`, never initialised
-                                 -- (no mesh config, no services); `some n` = initialised when the caches held n objects
-  ready   : Bool := false        -- `serverReady` (`CachesSynced()` was called)
+  full      : Nat
+  caches    : Nat := 0            -- = `InboundUpdates`
+  committed : Nat := 0            -- `CommittedUpdates`: updates the debouncer counts as pushed
+  building  : Option (Nat × Nat) := none
+                                  -- a debounced `Push` is running: (what the caches held when `InitContext` read them,
+                                  -- the number of updates merged into it = `InboundUpdates` at that moment)
+  ctx       : Option Nat := none  -- the global push context: `none` = `NewPushContext()`, never initialised
+                                  -- (no mesh config, no services); `some n` = initialised when the caches held n objects
+  ready     : Bool := false       -- `serverReady` (`CachesSynced()` was called)
   deriving DecidableEq, Repr
 
 inductive BootStep
   | load           -- an informer delivers one more object: the cache grows, `ConfigUpdate` is called
-                   -- (limit of the model: an object that reaches a cache WITHOUT a `ConfigUpdate` cannot be expressed)
-  | push           -- the debounced `Push`: a new push context is initialised from the caches and published
-  | markReady      -- bootstrap: `waitForCacheSync` (caches synced, every update so far committed), then `CachesSynced()`
+  | build          -- the debouncer starts `pushFn` (= `Push`) for everything received so far: the new context is
+                   -- initialised from the caches as they are NOW (one `Push` at a time)
+  | commit         -- that `Push` publishes its context and returns; only THEN the debouncer adds the merged updates
+                   -- to `CommittedUpdates` (discovery.go `debounce`: `pushFn(req); updateSent.Add(debouncedEvents)`)
+  | markReady      -- bootstrap `waitForCacheSync`: caches synced, `expected := InboundUpdates`, wait until
+                   -- `CommittedUpdates >= expected`, then `CachesSynced()`
   | connect        -- a proxy calls `Stream` / `StreamDeltas`
   deriving DecidableEq, Repr
 
@@ -133,12 +141,24 @@ inductive Served
   deriving DecidableEq, Repr
 
 /-- `gate`: the `IsServerReady` check of `Stream` / `StreamDeltas` is present;
-    `initInStream`: so is `globalPushContext().InitContext(...)`. Returns the new state and, for a
-    `connect`, what the proxy met. -/
-def bootStep (gate initInStream : Bool) (b : Boot) : BootStep → Boot × Option Served
-  | .load => if b.caches < b.full then ({ b with caches := b.caches + 1, pending := true }, none) else (b, none)
-  | .push => ({ b with ctx := some b.caches, pending := false }, none)
-  | .markReady => if b.caches = b.full ∧ b.pending = false then ({ b with ready := true }, none) else (b, none)
+    `initInStream`: so is `globalPushContext().InitContext(...)`;
+    `commitAfterPush`: the debouncer counts the updates as committed AFTER `pushFn` returned (the code) -
+    `false` counts them when the push STARTS.  Returns the new state and, for a `connect`, what the proxy met. -/
+def bootStep (gate initInStream commitAfterPush : Bool) (b : Boot) : BootStep → Boot × Option Served
+  | .load => if b.caches < b.full then ({ b with caches := b.caches + 1 }, none) else (b, none)
+  | .build =>
+    match b.building with
+    | some _ => (b, none)
+    | none =>
+      ({ b with building := some (b.caches, b.caches),
+                committed := if commitAfterPush then b.committed else b.caches }, none)
+  | .commit =>
+    match b.building with
+    | none => (b, none)
+    | some (c, k) =>
+      ({ b with ctx := some c, building := none,
+                committed := if commitAfterPush then k else b.committed }, none)
+  | .markReady => if b.caches = b.full ∧ b.caches ≤ b.committed then ({ b with ready := true }, none) else (b, none)
   | .connect =>
     if gate && !b.ready then (b, some .refused)
     else
@@ -147,11 +167,31 @@ def bootStep (gate initInStream : Bool) (b : Boot) : BootStep → Boot × Option
       ({ b with ctx := ctx }, some (match ctx with | some n => .from n | none => .cold))
 
 /-- Run a schedule; collect what every connecting proxy met. -/
-def bootRun (gate initInStream : Bool) : Boot → List BootStep → Boot × List Served
+def bootRun (gate initInStream commitAfterPush : Bool) : Boot → List BootStep → Boot × List Served
   | b, [] => (b, [])
   | b, e :: es =>
-    let (b1, o) := bootStep gate initInStream b e
-    let (b2, os) := bootRun gate initInStream b1 es
+    let (b1, o) := bootStep gate initInStream commitAfterPush b e
+    let (b2, os) := bootRun gate initInStream commitAfterPush b1 es
     (b2, o.toList ++ os)
+
+/-! ### `ProxyUpdate` in the overlap window
+
+A proxy that reconnects before the instance has noticed its dead stream has TWO registered connections for a
+while.  A change of the workload's labels reaches connected proxies only through `ProxyUpdate` (ads.go): a forced
+push with reason `ProxyUpdate` makes `computeProxyState` call `SetWorkloadLabels` again. -/
+
+/-- A registered connection of the proxy: is it the live stream, and which version of the workload labels its
+    proxy object has read. -/
+structure PConn where
+  live   : Bool
+  labels : Nat
+  deriving DecidableEq, Repr
+
+/-- `ProxyUpdate` over the matching connections in the order the Go map yields them (arbitrary).
+    `everyMatch = false` is the code before repair 234a295: `break` at the first match. -/
+def proxyUpdate (everyMatch : Bool) (newLabels : Nat) : List PConn → List PConn
+  | [] => []
+  | c :: cs =>
+    { c with labels := newLabels } :: (if everyMatch then proxyUpdate everyMatch newLabels cs else cs)
 
 end IstioModel.C05
